@@ -163,7 +163,9 @@ func throughJSON(x poly.Sequence) (poly.Sequence, error) {
 	if err != nil {
 		return poly.Sequence{}, vk.Harnessf("json.Marshal: %v", err)
 	}
-	return polyjson.Parse(b), nil
+	y := polyjson.Parse(b)
+	vk.Scribble(b) // the caller re-uses its buffer: what Parse returned must not change with it
+	return y, nil
 }
 
 func check(c Case) error {
@@ -213,7 +215,7 @@ func check(c Case) error {
 	p := filepath.Join(vk.WorkDir(), "x.json")
 	defer os.Remove(p)
 	vk.StaleFile(p, 4*len(x.Sequence)+20000)
-	polyjson.Write(x, p)
+	vk.AlternateTempDir(func() { polyjson.Write(x, p) })
 	if err := sameValue("polyjson.Read(polyjson.Write(x))", x, polyjson.Read(p)); err != nil {
 		return err
 	}
